@@ -119,13 +119,17 @@ def hilbert(seed=0, full=False):
         s = c.int("s", 0, 4 ** hlev - 1)
         a = H.s_to_anchor(s, hlev, o)
         c.observe("anchor", [a.k, a.offset[0], a.offset[1], a.flips[0], a.flips[1]])
+    from symx import shared
     for s0, hlev, o in cases:
+        snap = shared.snapshot_state()          # both evaluations start from the same (import-time) module state
         res = sx.explore(h, {"hlev": hlev, "o": o}, pins={"s": s0}, tactic="qfbv")
+        shared.restore_state(snap)
         c18.restore()
         hh.int = int
         hh.math = __import__("math")
         a = hh.s_to_anchor(s0, hlev, o)
         exp = [a.k, float(a.offset[0]), float(a.offset[1]), a.flips[0], a.flips[1]]
+        shared.restore_state(snap)
         got = [[float(v) if isinstance(v, (int, float)) and i in (1, 2) else v for i, v in enumerate(ob["anchor"])] for ob in res.observations]
         if got != [exp]:
             bad.append((s0, hlev, o, got[:1], exp))
